@@ -156,8 +156,10 @@ fn is_canonical_within(value: Zatoshis, min: Zatoshis, max: Zatoshis) -> bool {
         return false;
     }
     let mut n = u64::from(value);
-    // A zero value is excluded by the `min` bound above, every admissible bound being positive.
-    while n.is_multiple_of(DENOMINATION_RADIX) {
+    // Zero is a multiple of every power of the radix and would never leave the loop; it is not on
+    // the `{1, 2, 5} * 10^k` series, so it falls through to the membership test below and is
+    // rejected, whatever the bounds are (an overridden lower bound may be zero).
+    while n != 0 && n.is_multiple_of(DENOMINATION_RADIX) {
         n /= DENOMINATION_RADIX;
     }
     ONE_TWO_FIVE_DESCENDING.contains(&n)
